@@ -56,6 +56,11 @@ def scen(w, nlines=2, quick=0):
     build_prefix(w, T, prefix, "T")
     SP = w.env.mod("StreamProcessor").StreamProcessor
     proc = SP(io.BytesIO(b""), L.gcodeHandlers)
+    if w.flag("live-print-continues"):
+        x, y, e = w.real("lc_X"), w.real("lc_Y"), w.real("lc_E")
+        L.handleGcodeQueuing(None, "queuing", "G1 X%s Y%s E%s" % (w.key(x), w.key(y), w.key(e)), None, "G1")
+        L.handleGcodeQueuing(None, "queuing", "G91", None, "G91")
+        w.cover("live-continued")
     live_before = snapshot(L.state)
     eol = EOLS[w.choose(2, "eol")]
     file_lines = []
@@ -145,7 +150,7 @@ META = {
 def plan(tier):
     n = 2
     q = 1 if tier == "quick" else 0
-    cov = ["prefix-0", "prefix-1", "prefix-2"] + ["line-" + (x if isinstance(x, str) else x.tag)
+    cov = ["prefix-0", "prefix-1", "prefix-2", "live-continued"] + ["line-" + (x if isinstance(x, str) else x.tag)
                                                     for x in (LINES_QUICK if q else LINES)]
     return [Scenario("file", scen, params={"nlines": n, "quick": q}, cover=cov, bounds={"lines": n, "line templates": len(LINES),
                                                                           "decorations": 4, "eol styles": 2})]
